@@ -82,3 +82,38 @@ func RWLock(m *sync.RWMutex)   { lockLoop("RWMutex.Lock", m.TryLock) }
 func RWUnlock(m *sync.RWMutex) { m.Unlock(); unlocked() }
 func RWRLock(m *sync.RWMutex)  { lockLoop("RWMutex.RLock", m.TryRLock) }
 func RWRUnlock(m *sync.RWMutex) { m.RUnlock(); unlocked() }
+
+// ---- sync.Pool ---------------------------------------------------------------------------------
+
+// SeamFn yields at a simulator seam that is not a statement boundary (pool hand-over).
+var SeamFn func(what string)
+
+var pools = map[*sync.Pool][]any{}
+
+// ResetPools forgets every pooled object (start of a run).
+func ResetPools() { pools = map[*sync.Pool][]any{} }
+
+// PoolGet / PoolPut replace sync.Pool's methods by a LIFO free list - a legal Pool behaviour -
+// with a yield before Get and after Put, so that "object still in use after Put" can be
+// interleaved with the next Get even when the Put is a deferred call.
+func PoolGet(p *sync.Pool) any {
+	if f := SeamFn; f != nil {
+		f("pool.Get")
+	}
+	if l := pools[p]; len(l) > 0 {
+		x := l[len(l)-1]
+		pools[p] = l[:len(l)-1]
+		return x
+	}
+	if p.New != nil {
+		return p.New()
+	}
+	return nil
+}
+
+func PoolPut(p *sync.Pool, x any) {
+	pools[p] = append(pools[p], x)
+	if f := SeamFn; f != nil {
+		f("pool.Put")
+	}
+}
